@@ -44,10 +44,4 @@ theorem selected_iff (d r : ℚ) : Gen.selected d r = true ↔ d < r := by
   unfold Gen.selected
   exact decide_eq_true_iff
 
-theorem steps_in_order : Gen.stepsInOrder = true := by
-  rfl
-
-theorem centred_on_site : Gen.centredOnSite = true := by
-  rfl
-
 end G.C17Gen
